@@ -429,6 +429,12 @@ def run(c):
         judge_findtype(findtype(hb, c.seed + 101, 16, 12, "searchft"), "searchft")
         judge_races()
 
+    if thorough:
+        # from-scratch build of the theories in a private copy + the independent checker on the closure of the props file
+        c.clean_theories_build()
+        if proved:
+            c.coqchk(["RGW.C08"])
+
     c.coverage["exhaustive"] = False
     c.coverage["proved"] = bool(proved)
     c.finish(search=search)
